@@ -557,6 +557,12 @@ static void update_offset(printbuffer * const buffer)
 static cJSON_bool compare_double(double a, double b)
 {
     double maxVal = fabs(a) > fabs(b) ? fabs(a) : fabs(b);
+    if (maxVal > DBL_MAX)
+    {
+        /* an infinite operand would make the tolerance infinite as well and equal to every number:
+         * infinity only equals the same infinity */
+        return (a <= b) && (a >= b);
+    }
     return (fabs(a - b) <= maxVal * DBL_EPSILON);
 }
 
